@@ -157,12 +157,16 @@ class Target:
             y = float(np.sum((np.log(x) - np.log(p["center"])) ** 2))
         else:
             y = float(np.sum((x - p["center"]) ** 2) + 0.3 * np.sum(np.abs(x - p["center"])))
+        sd = p["sigma"]
+        if p["mode"] == "specified_noise":
+            # heteroskedastic: the reported SD depends on the point (so that an SD taken from another point is visible)
+            sd = p["sigma"] * (0.5 + 1.0 / (1.0 + abs(float(x[0]) - float(p["center"][0]))))
         if p["sigma"] > 0:
-            y = y + p["sigma"] * float(self.rng.standard_normal())
+            y = y + sd * float(self.rng.standard_normal())
         self.vals.append(y)
         if p["mode"] == "specified_noise":
-            self.sds.append(p["sigma"])
-            return y, p["sigma"]
+            self.sds.append(sd)
+            return y, sd
         self.sds.append(None)
         return y
 
@@ -555,6 +559,16 @@ def check_run(p, b, con, target, res, viol, key, exc=None):
                 viol.add("C05.yval_vec_is_fresh_samples", key)
             if abs(res["fval"] - float(np.mean(yv))) > 1e-12 or abs(res["fsd"] - float(np.std(yv) / np.sqrt(yv.size))) > 1e-12:
                 viol.add("C05.fval_is_mean_fsd_is_sem", key)
+            if p["mode"] == "specified_noise" and res.get("ysd_vec") is not None:
+                sv = np.asarray(res["ysd_vec"], dtype=float).flatten()
+                if not np.array_equal(sv[:nfs], np.array(target.sds[-nfs:], dtype=float)):
+                    viol.add("C05.ysd_vec_is_reported_sds", key, got=sv[:nfs].tolist(), reported=[float(v) for v in target.sds[-nfs:]])
+                if nfs == 1 and sv.size == 2:
+                    at_x = [target.sds[i] for i, c in enumerate(target.calls[:-nfs]) if np.array_equal(c, x) and target.sds[i] is not None]
+                    # the log row may hold the precision-weighted SD of several merged observations at x: sd / sqrt(n) at least
+                    n_at_x = sum(1 for c in target.calls if np.allclose(c, x, rtol=0, atol=1e-12))
+                    if at_x and not (min(at_x) / np.sqrt(max(1, n_at_x)) - 1e-12 <= sv[1] <= max(at_x) + 1e-12):
+                        viol.add("C05.ysd_vec_supplement_is_sd_reported_at_x", key, got=float(sv[1]), reported_at_x=[float(v) for v in at_x][:4])
         if not any(np.array_equal(c, x) for c in target.calls[: max(1, len(target.calls) - nfs)]):
             viol.add("C05.x_evaluated_earlier", key)
 
@@ -623,7 +637,7 @@ def run_one(p, viol, want, noise_seed, fault_at=None, fault=None, gpfault=None, 
             inner = [f for f in tb if "pybads" in f.filename]
             cls = "budget-not-above-initial-design" if ("cannot convert float NaN to integer" in str(exc) and inner and inner[-1].name == "_get_gp_training_options") else "other"
             viol.add("C09.no_internal_error", key, exc=type(exc).__name__ + ": " + str(exc)[:200], where=("%s:%d" % (inner[-1].filename.split("/pybads/")[-1], inner[-1].lineno)) if inner else None,
-                     **{"class": cls})
+                     trace=["%s:%d %s" % (f.filename.split("/pybads/")[-1], f.lineno, f.name) for f in inner[-4:]], **{"class": cls})
         else:
             if fault == "raise" and not isinstance(exc, SimError):
                 viol.add("C10.same_exception_type", key, got=type(exc).__name__)
